@@ -45,6 +45,44 @@ def wsCollapse (s : String) : String := Id.run do
 
 def trimS (s : String) : String := wsCollapse s
 
+/-- character references a browser resolves in text: numeric ones, and the named ones that occur in e-mail copy -/
+def namedRefs : List (String × Nat) :=
+  [("amp", 38), ("lt", 60), ("gt", 62), ("quot", 34), ("apos", 39), ("nbsp", 160), ("copy", 169), ("reg", 174), ("trade", 8482),
+   ("hellip", 8230), ("mdash", 8212), ("ndash", 8211), ("laquo", 171), ("raquo", 187), ("euro", 8364), ("pound", 163),
+   ("lsquo", 8216), ("rsquo", 8217), ("ldquo", 8220), ("rdquo", 8221), ("bull", 8226), ("middot", 183), ("deg", 176),
+   ("times", 215), ("eacute", 233), ("egrave", 232), ("agrave", 224), ("ccedil", 231)]
+
+def hexDigit (ch : Char) : Option Nat :=
+  if ch.isDigit then some (ch.toNat - 48)
+  else if 'a' ≤ ch && ch ≤ 'f' then some (ch.toNat - 87)
+  else if 'A' ≤ ch && ch ≤ 'F' then some (ch.toNat - 55)
+  else none
+
+def refValue (body : List Char) : Option Nat :=
+  match body with
+  | '#' :: 'x' :: ds | '#' :: 'X' :: ds =>
+    if ds.isEmpty then none else ds.foldl (fun acc d => match acc, hexDigit d with | some a, some v => some (a * 16 + v) | _, _ => none) (some 0)
+  | '#' :: ds =>
+    if ds.isEmpty || !ds.all Char.isDigit then none else some (ds.foldl (fun a d => a * 10 + (d.toNat - 48)) 0)
+  | _ => (namedRefs.find? (fun p => p.1.toList == body)).map (·.2)
+
+/-- decode `&name;` / `&#n;` / `&#xh;` (anything else stays as written) -/
+def decodeRefs (s : String) : String := Id.run do
+  let cs := s.toList.toArray
+  let mut out : Array Char := #[]
+  let mut i := 0
+  while i < cs.size do
+    if cs[i]! == '&' then
+      let mut j := i + 1
+      while j < cs.size && j < i + 12 && cs[j]! != ';' && cs[j]! != '&' && !isWs cs[j]! do j := j + 1
+      if j < cs.size && cs[j]! == ';' then
+        match refValue (cs.extract (i + 1) j).toList with
+        | some v => out := out.push (Char.ofNat v); i := j + 1; continue
+        | none => pure ()
+    out := out.push cs[i]!
+    i := i + 1
+  return String.mk out.toList
+
 def parseDecls (s : String) : List Attr :=
   (s.splitOn ";").filterMap fun d =>
     let d := trimS d
@@ -65,7 +103,7 @@ def canonTok : HTok → Option CTok
   | .open_ n a => some (.o n (canonAttrs a))
   | .void n a => some (.v n (canonAttrs a))
   | .close n => some (.c n)
-  | .text s => let w := wsCollapse s; if w == "" then none else some (.t w)
+  | .text s => let w := wsCollapse (decodeRefs s); if w == "" then none else some (.t w)
   | .msoOpen cnd => some (.co (wsCollapse cnd))
   | .msoClose => some .cc
   | .notMsoOpen cnd => some (.nco (wsCollapse cnd))
@@ -73,7 +111,47 @@ def canonTok : HTok → Option CTok
   | .comment s => some (.cm (wsCollapse s))
   | .doctype => some .dt
 
-def canon (ts : List HTok) : List CTok := ts.filterMap canonTok
+/-- CSS text: whitespace is insignificant around `{ } ; , > + ~ ( ) !` and after `:`; a `;` before `}` is optional -/
+def cssCanon (s : String) : String := Id.run do
+  let cs := (wsCollapse s).toList.toArray
+  let punct := fun (ch : Char) => ch == '{' || ch == '}' || ch == ';' || ch == ',' || ch == '>' || ch == '+' || ch == '~' || ch == '(' || ch == ')' || ch == '!'
+  let mut out : Array Char := #[]
+  for i in [0:cs.size] do
+    let ch := cs[i]!
+    if ch == ' ' then
+      let prev := if out.size > 0 then out[out.size - 1]! else ' '
+      let next := if i + 1 < cs.size then cs[i + 1]! else ' '
+      if punct prev || prev == ':' || (punct next && next != '(') || prev == ' ' then continue
+      out := out.push ch
+    else if ch == '}' && out.size > 0 && out[out.size - 1]! == ';' then
+      out := (out.pop).push ch
+    else
+      out := out.push ch
+  return String.mk out.toList
+
+/-- canonical tokens; text directly inside `<style>` is CSS -/
+def canon (ts : List HTok) : List CTok :=
+  let rec go : List HTok → Bool → List CTok
+    | [], _ => []
+    | t :: r, inStyle =>
+      match t with
+      | .text s =>
+        if inStyle then
+          let w := cssCanon s
+          if w == "" then go r inStyle else .t w :: go r inStyle
+        else
+          match canonTok t with
+          | some x => x :: go r inStyle
+          | none => go r inStyle
+      | .open_ n _ =>
+        match canonTok t with
+        | some x => x :: go r (n == "style")
+        | none => go r (n == "style")
+      | _ =>
+        match canonTok t with
+        | some x => x :: go r false
+        | none => go r false
+  go ts false
 
 def showAttrs (a : List Attr) : String := " ".intercalate (a.map fun kv => kv.1 ++ "=\"" ++ kv.2 ++ "\"")
 def showTok : CTok → String
@@ -217,6 +295,12 @@ def kindOf (g : List HTok) : String :=
 def cmpHandle (args : List String) : String :=
   match args with
   | [a, b] => report (canon (Lex.lex (unhex a)).toList) (canon (Lex.lex (unhex b)).toList)
+  | _ => "bad-request"
+
+/-- `refcanon <hex>`: the canonical tokens, one per word, hex-encoded -/
+def canonHandle (args : List String) : String :=
+  match args with
+  | [a] => " ".intercalate ((canon (Lex.lex (unhex a)).toList).map fun t => Driver.HtmlP.hexS (showTok t))
   | _ => "bad-request"
 
 def splitHandle (args : List String) : String :=
